@@ -56,7 +56,7 @@ def plan_cases(ctx):
     streams = G.c06_streams(rng, quick)
     out = []
     exps = [None] + G.ALLF
-    exhaustive = streams[:7] if quick else streams
+    exhaustive = streams
     for label, data, sizes in exhaustive:
         nch = len(sizes)
         for name in G.ALLF:
@@ -65,12 +65,6 @@ def plan_cases(ctx):
                     out.append((label, data, sizes, None, e, [(name, k)], rng.random() < 0.5))
         for e in exps:                       # no fault at all
             out.append((label, data, sizes, None, e, [], rng.random() < 0.5))
-    rest = streams[7:] if quick else []
-    for label, data, sizes in rest:
-        nch = len(sizes)
-        for _ in range(40):
-            out.append((label, data, sizes, None, rng.choice(exps), [(rng.choice(G.ALLF), rng.randrange(max(1, nch)))],
-                        rng.random() < 0.5))
     # restricted allowed_formats
     for label, data, sizes in streams:
         nch = len(sizes)
